@@ -176,6 +176,12 @@ func Begin(c Config) {
 	for i := range holderTab {
 		holderTab[i].m = nil
 	}
+	for i := range onceTab {
+		if onceTab[i].o != nil && !onceTab[i].running {
+			// keep "done" knowledge across runs only through the real Once
+			onceTab[i].o = nil
+		}
+	}
 	ntasks = 0
 	aborted = false
 	abortWhy = ""
@@ -735,3 +741,74 @@ func SetCounterfactual(on bool) { counterfactual = on }
 //
 //go:norace
 func Counterfactual() bool { return counterfactual }
+
+// ---------------------------------------------------------------- sync.Once --
+
+// A task that calls (*sync.Once).Do while another task is parked inside the
+// same Do would block inside the Go runtime with the baton in its hand.  Rule
+// R1 therefore also rewrites o.Do(f) into simrt.OnceDo(&o, f): tasks that find
+// the Once running are descheduled by the simulator until it has finished;
+// the real Once is still used, so the race detector sees its ordering.
+
+var onceTab [32]struct {
+	o       *sync.Once
+	running bool
+	done    bool
+}
+
+//go:norace
+func onceSlot(o *sync.Once) int {
+	free := -1
+	for i := range onceTab {
+		if onceTab[i].o == o {
+			return i
+		}
+		if onceTab[i].o == nil && free < 0 {
+			free = i
+		}
+	}
+	if free < 0 {
+		free = 0
+	}
+	onceTab[free].o = o
+	onceTab[free].running = false
+	onceTab[free].done = false
+	return free
+}
+
+//go:norace
+func onceEnter(o *sync.Once) (run bool) {
+	yieldPoint(-7, true)
+	i := onceSlot(o)
+	for onceTab[i].running {
+		block(unsafe.Pointer(o))
+		i = onceSlot(o)
+	}
+	if onceTab[i].done {
+		return false
+	}
+	onceTab[i].running = true
+	return true
+}
+
+//go:norace
+func onceLeave(o *sync.Once) {
+	i := onceSlot(o)
+	onceTab[i].running = false
+	onceTab[i].done = true
+	wake(unsafe.Pointer(o))
+}
+
+// OnceDo replaces o.Do(f) in instrumented code.
+func OnceDo(o *sync.Once, f func()) {
+	if !Active() {
+		o.Do(f)
+		return
+	}
+	if onceEnter(o) {
+		defer onceLeave(o)
+		o.Do(f)
+		return
+	}
+	o.Do(func() {})
+}
